@@ -1,15 +1,15 @@
 (* Pinned statements of the compiler-correctness component of C01 (unit comp).
 
-   FULL STATEMENT aimed at (DESIGN.md C01, item 3) -- for every Core-0 program:
-     Theorem comp_correct : forall p fuel ch r,
-       wf0 p = true -> known_C01 p = false -> compile p = OK ch -> length (ch_bytes ch) <= 65535 ->
-       Sem0.run fuel p = Done r -> exists n, VM0.run n ch = VDone r      (and Failed c -> VFail c).
-   PROVED HERE: the same statement for the fragment [frag] of Core-0 (literals incl. pooled integer
-   constants, identifiers, parentheses, + - *, and/or, x = e, statement sequences), i.e. without
-   unary operators, comparisons / chains, x op= e, if, loops, break, continue (for those the models
-   Sem0 / Comp0 / VM0 are complete and tied to the implementation by checks/c01_comp.py, but the
-   simulation cases are not proved): comp_correct_partial.  Its core is the generalised lemma
-   comp_expr_context_independent (SimExpr.sim_expr). *)
+   comp_correct is the FULL statement of DESIGN.md C01 item 3 for Core-0 (integer literals incl.
+   pooled constants, true / false / null, locals, parentheses, unary - and not, + - *, the six
+   comparisons incl. chains, and / or, x = e, x op= e, blocks, if / else if / else, while / until /
+   loop, break [e], continue, the script's final expression as result):
+   for every program outside the decidable class known_C01 (the genuine defects K1a-c) and inside
+   wf0 (break / continue travel only through statement positions), the code the compiler model emits
+   -- byte-identical to koto_bytecode's on every generated case -- run by the VM model on the bytes
+   gives exactly the value / the error class of the reference semantics.
+   Its core is the generalised lemma comp_expr_context_independent (SimAll.sim_all, statement Q in
+   SimQ.v): every expression, every compile context, every result mode. *)
 From Coq Require Import ZArith NArith List Bool.
 From KV.comp Require Import Ast0 Sem0 Instr0 Comp0 VM0 Known0 InstrLemmas CompLemmas SimBase SimExpr SimQ SimAll SimProg.
 Import ListNotations.
@@ -18,27 +18,27 @@ Open Scope N_scope.
 (* every program of the fragment outside the known class: the real compiler's code (model Comp0,
    byte-identical to koto_bytecode on every generated case) run by the VM (model VM0 on the bytes)
    gives exactly the value / the error class of the reference semantics *)
-Theorem comp_correct_partial : forall p fuel ch,
-  all_list frag p = true -> wf0 p = true -> known_C01 p = false ->
+Theorem comp_correct : forall p fuel ch,
+  wf0 p = true -> known_C01 p = false ->
   compile p = OK ch ->
   match Sem0.run fuel p with
   | Done v => exists n, VM0.run n ch = VDone v
   | Failed c => exists n, VM0.run n ch = VFail c
   | _ => True
   end.
-Proof. exact comp_correct_frag. Qed.
-Print Assumptions comp_correct_partial.
+Proof. exact comp_correct_all. Qed.
+Print Assumptions comp_correct.
 
 (* "The outcome of an expression does not depend on the code that surrounds it": for every
-   expression of the fragment, every compile state (any assigned / reserved locals, any number of
-   live temporaries, any enclosing loop), every result mode None / Any / Fixed r and every set D of
-   half-written variables the expression does not read: the emitted code, run from a register file
-   that agrees with the environment, ends at the end of the code in a register file that agrees
-   again, with Sem0's value in the designated register and every other live register untouched --
-   or takes the break / continue edge of the enclosing loop with the loop's result register set --
-   or stops with Sem0's error (Q = compile-time facts + this run-time statement, SimQ.v). *)
-Theorem comp_expr_context_independent : forall pool e, frag e = true -> Q pool e.
-Proof. intros pool e F. apply sim_all. exact F. Qed.
+   expression e, every compile state (any assigned / reserved locals, any number of live
+   temporaries, any enclosing loop), every result mode None / Any / Fixed r and every set D of
+   half-written variables e does not read: the emitted code, run from a register file that agrees
+   with the environment, ends at the end of the code in a register file that agrees again, with
+   Sem0's value in the designated register and every other live register untouched -- or takes the
+   break / continue edge of the enclosing loop with the loop's result register set -- or stops with
+   Sem0's error (Q = compile-time facts + this run-time statement, SimQ.v). *)
+Theorem comp_expr_context_independent : forall pool e, Q pool e.
+Proof. intros pool e. apply sim_all. Qed.
 Print Assumptions comp_expr_context_independent.
 
 (* K1 on the faithful model: `x = 5; y = true; x = y and x; x` *)
@@ -49,17 +49,31 @@ Definition k1b_witness : program :=
   [EAssign 0 (EInt 3); EArith OAdd (EId 0) (ENested (EAssign 0 (EInt 5)))].
 (* discarded operator: `1 + true; 7` *)
 Definition k1c_witness : program := [EArith OAdd (EInt 1) (EBool true); EInt 7].
+(* a middle operand of a chain that lives in the result register: `x = 0; x = 1 < (x = 3) < 5; x` *)
+Definition k1d_witness : program :=
+  [EAssign 0 (EInt 0);
+   EAssign 0 (ECmp CLt (EInt 1) (ECmp CLt (ENested (EAssign 0 (EInt 3))) (EInt 5))); EId 0].
+(* a loop assigned to a variable it reads: `x = 0; x = while x < 3 (x += 1); x` *)
+Definition k1e_witness : program :=
+  [EAssign 0 (EInt 0);
+   EAssign 0 (EWhile (ECmp CLt (EId 0) (EInt 3)) (EBlock [EOpAssign OAdd 0 (EInt 1)])); EId 0].
 
 Theorem comp_correct_refuted :
-  (all_list frag k1_witness = true /\ known_C01 k1_witness = true /\
+  (wf0 k1_witness = true /\ known_C01 k1_witness = true /\
    Sem0.run 10 k1_witness = Done (VInt 5) /\
    exists ch, compile k1_witness = OK ch /\ VM0.run 100 ch = VDone (VBool true)) /\
-  (all_list frag k1b_witness = true /\ known_C01 k1b_witness = true /\
+  (wf0 k1b_witness = true /\ known_C01 k1b_witness = true /\
    Sem0.run 10 k1b_witness = Done (VInt 8) /\
    exists ch, compile k1b_witness = OK ch /\ VM0.run 100 ch = VDone (VInt 10)) /\
-  (all_list frag k1c_witness = true /\ known_C01 k1c_witness = true /\
+  (wf0 k1c_witness = true /\ known_C01 k1c_witness = true /\
    Sem0.run 10 k1c_witness = Failed ErrBinop /\
-   exists ch, compile k1c_witness = OK ch /\ VM0.run 100 ch = VDone (VInt 7)).
+   exists ch, compile k1c_witness = OK ch /\ VM0.run 100 ch = VDone (VInt 7)) /\
+  (wf0 k1d_witness = true /\ known_C01 k1d_witness = true /\
+   Sem0.run 10 k1d_witness = Done (VBool true) /\
+   exists ch, compile k1d_witness = OK ch /\ VM0.run 100 ch = VFail ErrBinop) /\
+  (wf0 k1e_witness = true /\ known_C01 k1e_witness = true /\
+   Sem0.run 20 k1e_witness = Done (VInt 3) /\
+   exists ch, compile k1e_witness = OK ch /\ VM0.run 100 ch = VFail ErrBinop).
 Proof.
   splits;
     try match goal with |- exists ch, compile ?p = OK ch /\ _ =>
@@ -86,9 +100,28 @@ Print Assumptions decode_encode.
 Example nonvacuous_theorem_applies :
   let p := [EAssign 0 (EInt 9223372036854775807); EAssign 1 (EArith OAdd (EId 0) (EInt 1));
             EAssign 0 (ELogic LOr (EId 1) (EInt 3)); EArith OMul (EId 0) (EInt 2)] in
-  all_list frag p = true /\ wf0 p = true /\ known_C01 p = false /\
+  wf0 p = true /\ known_C01 p = false /\
   Sem0.run 10 p = Done (VInt 0) /\
   exists ch, compile p = OK ch /\ VM0.run 100 ch = VDone (VInt 0).
+Proof.
+  cbv zeta. splits;
+    try match goal with |- exists ch, compile ?p = OK ch /\ _ =>
+      let c := eval vm_compute in (compile p) in
+      match c with OK ?ch => exists ch; split end end;
+    vm_compute; reflexivity.
+Qed.
+
+Example nonvacuous_loops :
+  let p := [EAssign 0 (EInt 0); EAssign 1 (EInt 0);
+            EAssign 2 (EWhile (ECmp CLt (EId 0) (EInt 10))
+              (EBlock [EOpAssign OAdd 0 (EInt 1);
+                       EIf (ECmp CEq (EId 0) (EInt 3)) (EBlock [EContinue]) [] None;
+                       EIf (ECmp CGt (EId 0) (EInt 6)) (EBlock [EBreak (Some (EArith OMul (EId 0) (EInt 100)))]) [] None;
+                       EOpAssign OAdd 1 (EId 0)]));
+            EArith OAdd (EId 1) (EId 2)] in
+  wf0 p = true /\ known_C01 p = false /\
+  Sem0.run 30 p = Done (VInt 718) /\
+  exists ch, compile p = OK ch /\ VM0.run 400 ch = VDone (VInt 718).
 Proof.
   cbv zeta. splits;
     try match goal with |- exists ch, compile ?p = OK ch /\ _ =>
